@@ -1305,7 +1305,9 @@ func respIterContract(c *cx, id string) {
 	if tk != nil {
 		g := tk.Graph()
 		n := 0
-		isClose := func(q eng.Point, nd ast.Node) bool { return tk.ContainsCall(nd, "internal/respiter.response.Close") != nil }
+		isClose := func(q eng.Point, nd ast.Node) bool {
+			return tk.ContainsCall(nd, "internal/respiter.response.Close") != nil
+		}
 		for _, rs := range g.Returns {
 			rp, _ := g.Where(rs)
 			for _, ce := range g.EdgesMatching("!eq(*Token*#1,nil)") {
